@@ -66,6 +66,9 @@ type Expect struct {
 	MarginBottom float64           `json:"margin_bottom,omitempty"`
 	// PageMargins: expected [top right bottom left] margins by page kind: first | left | right | blank-left | blank-right
 	PageMargins map[string][4]float64 `json:"page_margins,omitempty"`
+	MarginCounters bool `json:"margin_counters,omitempty"`
+	// FirstLetter: ::first-letter is used, so the first letter of a paragraph is drawn on its own
+	FirstLetter bool `json:"first_letter,omitempty"`
 	// FillPages (with orphans = widows = 1): a page that ends in the middle of a paragraph leaves less than one line unused
 	FillPages bool `json:"fill_pages,omitempty"`
 	// Paras: the paragraphs (word lists) that orphans/widows apply to, with the values
